@@ -1,6 +1,9 @@
 package sym
 
-// BigV models math/big.Int as a signed bit-vector of bigW bits.
-type BigV struct{ T *Term }
+// BigV models math/big.Int in sign-magnitude form (see bigint.go).
+type BigV struct {
+	Neg *Term // bool
+	Mag *Term // unsigned, bigW bits
+}
 
-const bigW = 192
+const bigW = 160
